@@ -371,6 +371,13 @@ func (w *World) applyTx(ts *TxStep) error {
 	if ts.Exec > 0 {
 		ex = "exec:"
 	}
+	if ts.Exec > 0 {
+		if obs.OK() {
+			w.Label("authz exec accepted")
+		} else {
+			w.Label("authz exec refused")
+		}
+	}
 	w.shape("tx:" + ex + strings.Join(kinds, "+") + ":" + oc)
 	w.Label("tx " + strings.SplitN(oc, ":", 2)[0])
 	if obs.Res.Code != 0 {
